@@ -333,5 +333,5 @@ def c14_frame(path, name):
     # 3. captured FunctionWrappers are only called / cloned inside the create closure (never cleared or consumed)
     body_txt = re.sub(r'\s+', '', src[sk.body_group.start:sk.body_group.end])
     if re.search(r'\.call_and_clear_if_available\(|\.clear\(\)', body_txt) and not re.search(r'(vec|items|results)\w*\.clear\(\)', body_txt):
-        return 'undecided', 'a captured callable is cleared/consumed inside the create-closure'
+        return 'failed', 'a captured callable is cleared/consumed (clear / call_and_clear_if_available) inside the create-closure: FunctionWrapper clones share one slot, so the callable is gone for every later subscription'
     return None
